@@ -24,9 +24,9 @@ Definition big_int (v : gval) : bool :=
 Definition has_big_int (c : ecase) : bool :=
   existsb (fun da => existsb (fun cj : conj => existsb (fun fe => existsb (fun e => big_int (e_val e)) (snd fe)) cj) (d_conjs (fst da))) (k_docs c).
 
-(* a json.Number whose text is not a plain integer literal (fraction or exponent) *)
+(* a json.Number whose text is not the canonical decimal text of an integer (fraction, exponent, or "-0") *)
 Definition frac_json (v : gval) : bool :=
-  let fr := fun x => match x with VJson s => existsb (fun b => (b =? 46)%N || (b =? 101)%N || (b =? 69)%N) s | _ => false end in
+  let fr := fun x => match x with VJson s => existsb (fun b => (b =? 46)%N || (b =? 101)%N || (b =? 69)%N) s || text_eqb s [45; 48]%N | _ => false end in
   match v with
   | VSlice _ _ vs | VList _ vs | VArr _ vs => existsb fr vs
   | _ => fr v
@@ -36,7 +36,7 @@ Definition has_frac_json (c : ecase) : bool :=
 
 (* signatures: 41 a decoded document is accepted/rejected differently, 42 answers differ,
    43 answers differ and the document holds an integer beyond 2^53 (float64 precision),
-   44 answers differ and the document holds a json.Number with a fraction or an exponent *)
+   44 answers differ and the document holds a json.Number with a fraction, an exponent or the text "-0" *)
 Definition spec_verdict_j (j : jcase) : bool * bool * N :=
   let '(o, d) := j in
   let '(ok_o, dom_o, sig_o) := SpecE2E.spec_verdict o in
